@@ -252,3 +252,15 @@ Definition check_grpctimed (P : params) (inp obs : V) : verdict :=
       end
   | _, _ => bad_case
   end.
+
+(* ---- glue for the family "muxstorm": n pairs Accept(id) / Dial(id), each pair issued at one instant with a fresh id.
+   What the model says about such a pair is the theorem pair of Props/C06.v (both calls succeed -- C06_dial_acked,
+   C06_accept_gets_own_id -- and are connected to each other -- C06_routing): input (n), obs (ok misrouted failed) *)
+Definition check_storm (inp obs : V) : verdict :=
+  match inp, obs with
+  | VL [VI n], VL [VI ok; VI mis; VI failed] =>
+      let good := (Z.eqb ok n && Z.eqb mis 0 && Z.eqb failed 0)%bool in
+      {| v_decoded := true; v_agree := good; v_oracle_impl := good; v_oracle_model := true;
+         v_model_obs := VL [VI n; VI 0%Z; VI 0%Z]; v_branch := VL [vbool (Z.ltb 0 n)] |}
+  | _, _ => bad_case
+  end.
